@@ -69,7 +69,7 @@ def run(rep, tier, seed, replay=None):
         return
 
     # ---- K: leaf / root, content-box style and its rewrite
-    n = 1200 if tier == "quick" else 8000
+    n = 1200 if tier == "quick" else 20000
     if mine:
         n = max(n, 3000)
     if replay and 'case' in replay:
@@ -152,8 +152,7 @@ def run(rep, tier, seed, replay=None):
                               % demo['replaced'], {'cmd': 'vh c12 demo'})
 
     # ---- search: whole trees
-    big = tier == 'thorough' or rep.broken or mine
-    nor = 400000 if big else 150000
+    nor = 2000000 if tier == 'thorough' else (400000 if (rep.broken or mine) else 150000)
     rc, out = vh(binp, ['c12', 'oracle', seed, 0, nor], timeout=900)
     fails, knowns, summary = [], [], {}
     for l in out.split('\n'):
